@@ -87,4 +87,41 @@ theorem tcheckCols_iff : ∀ (cs : List Carrier) (ts : List CqlTy) (i : Nat),
       simp [tcWrap, this]
     | none => simp [(tcheck_iff c t).mp h, tcheckCols_iff cs ts (i + 1)]
 
+mutual
+/-- A column that passed `type_check` cannot reach an `unreachable!` / `expect` of the typed readers, at any depth. -/
+theorem accepted_no_panic : ∀ (c : Carrier) (t : CqlTy), deserAccepts c t = true → deserPanics c t = false
+  | .scalar s, t, _ => by simp [deserPanics]
+  | .unset, t, _ => by simp [deserPanics]
+  | .maybeUnset c, t, _ => by simp [deserPanics]
+  | .opt c, t, h => by rw [deserAccepts] at h; rw [deserPanics]; exact accepted_no_panic c t h
+  | .maybeEmpty c, t, h => by rw [deserAccepts] at h; rw [deserPanics]; exact accepted_no_panic c t h
+  | .vec c, t, h => by cases t <;> simp [deserAccepts] at h <;> simp [deserPanics, accepted_no_panic c _ h]
+  | .hashSet c, t, h => by cases t <;> simp [deserAccepts] at h <;> simp [deserPanics, accepted_no_panic c _ h]
+  | .btreeSet c, t, h => by cases t <;> simp [deserAccepts] at h <;> simp [deserPanics, accepted_no_panic c _ h]
+  | .listIter c, t, h => by cases t <;> simp [deserAccepts] at h <;> simp [deserPanics, accepted_no_panic c _ h]
+  | .vecIter c, t, h => by cases t <;> simp [deserAccepts] at h <;> simp [deserPanics, accepted_no_panic c _ h]
+  | .hashMap k v, t, h => by
+    cases t <;> simp [deserAccepts] at h
+    simp [deserPanics, accepted_no_panic k _ h.1, accepted_no_panic v _ h.2]
+  | .btreeMap k v, t, h => by
+    cases t <;> simp [deserAccepts] at h
+    simp [deserPanics, accepted_no_panic k _ h.1, accepted_no_panic v _ h.2]
+  | .mapIter k v, t, h => by
+    cases t <;> simp [deserAccepts] at h
+    simp [deserPanics, accepted_no_panic k _ h.1, accepted_no_panic v _ h.2]
+  | .tuple cs, t, h => by
+    cases t <;> simp [deserAccepts] at h
+    simp [deserPanics, h.1, acceptedZip_no_panic cs _ h.2]
+  | .udtIter, t, h => by cases t <;> simp [deserAccepts] at h <;> simp [deserPanics]
+  | .dyn, t, _ => by simp [deserPanics]
+  | .raw, t, _ => by simp [deserPanics]
+theorem acceptedZip_no_panic : ∀ (cs : List Carrier) (ts : List CqlTy), deserAcceptsZip cs ts = true →
+    deserPanicsZip cs ts = false
+  | [], ts, _ => by simp [deserPanicsZip]
+  | c :: cs, [], _ => by simp [deserPanicsZip]
+  | c :: cs, t :: ts, h => by
+    simp only [deserAcceptsZip, Bool.and_eq_true] at h
+    simp [deserPanicsZip, accepted_no_panic c t h.1, acceptedZip_no_panic cs ts h.2]
+end
+
 end ScyllaVerif.Proofs.CarrierTc
